@@ -60,6 +60,13 @@ func guard(s *cases.Set, name string, in []byte, f func(b []byte)) {
 	}
 }
 
+func min(a, b int) int {
+	if a < b {
+		return a
+	}
+	return b
+}
+
 func mtype(up bool) lorawan.MType {
 	if up {
 		return lorawan.UnconfirmedDataUp
@@ -91,6 +98,27 @@ func phyCase(s *cases.Set, b []byte, kind string) {
 	reused.Decode(s, nr, b, o)
 	s.Add(cases.Case{Term: fmt.Sprintf("CPhy %s %s", cq.Bytes(b), o), Key: fmt.Sprintf("phy:%x", b), Kind: kind, Nontrivial: o != cq.Err,
 		Replay: map[string]interface{}{"api": "PHYPayload.UnmarshalBinary", "bytes": fmt.Sprintf("%x", b)}})
+}
+
+// phyTextCase: PHYPayload.UnmarshalText against the base64 model followed by the checked frame decoder
+func phyTextCase(s *cases.Set, txt []byte, kind string) {
+	o := cq.Err
+	cases.Begin(fmt.Sprintf("PHYPayload.UnmarshalText:%q", txt), map[string]interface{}{"api": "PHYPayload.UnmarshalText", "text": string(txt)})
+	defer cases.End()
+	func() {
+		defer func() {
+			if r := recover(); r != nil {
+				o = cq.Panic
+			}
+		}()
+		var p lorawan.PHYPayload
+		if err := p.UnmarshalText(append([]byte{}, txt...)); err == nil {
+			wire, _ := base64.StdEncoding.DecodeString(string(txt))
+			o = cq.Ok(framefmt.Phy(p, framefmt.DecodedFOptsLen(wire)))
+		}
+	}()
+	s.Add(cases.Case{Term: fmt.Sprintf("CPhyText %s %s", cq.Bytes(txt), o), Key: fmt.Sprintf("phytext:%q", txt), Kind: kind, Nontrivial: o != cq.Err,
+		Replay: map[string]interface{}{"api": "PHYPayload.UnmarshalText", "text": string(txt)}})
 }
 
 func streamCase(s *cases.Set, up bool, b []byte) {
@@ -377,6 +405,28 @@ func main() {
 				txt[r.Intn(len(txt))] = "!*= \n"[r.Intn(5)]
 			}
 			guard(s, "PHYPayload.UnmarshalText", txt, func(x []byte) { var q lorawan.PHYPayload; _ = q.UnmarshalText(x) })
+			phyTextCase(s, txt, "frame-text")
+			if i%3 == 0 { // the decoder's own rules: CR/LF anywhere, padding in the wrong place, cut quanta
+				t2 := append([]byte{}, txt...)
+				switch r.Intn(5) {
+				case 0:
+					k := r.Intn(len(t2) + 1)
+					t2 = append(t2[:k], append([]byte("\r\n"), t2[k:]...)...)
+				case 1:
+					if len(t2) > 0 {
+						t2 = t2[:len(t2)-1-r.Intn(min(3, len(t2)))]
+					}
+				case 2:
+					t2 = append(t2, '=')
+				case 3:
+					if len(t2) > 2 {
+						t2[len(t2)-2] = '='
+					}
+				default:
+					t2 = append(t2, []byte("QUJD")[:1+r.Intn(4)]...)
+				}
+				phyTextCase(s, t2, "frame-text-mutated")
+			}
 			// decrypt-then-decode with any key
 			var key lorawan.AES128Key
 			if r.Intn(4) != 0 {
